@@ -4,5 +4,7 @@
 cd "$(dirname "$0")/.." || exit 2
 /venv/bin/python translate/gen_all.py || echo "setup: generation failed (checks will report)"
 cd lean || exit 2
-lake build SarpyModel SarpyModel.Drivers || { echo "setup: full build failed, building what builds"; lake build SarpyModel.Drivers || true; }
+# every module of the library (models, generated files, bridges, theorems, drivers), so that no check pays a first-build cost
+mods=$(find SarpyModel -name '*.lean' | sed 's/\.lean$//; s#/#.#g' | sort)
+lake build SarpyModel $mods || { echo "setup: full build failed, building what builds"; for m in $mods; do lake build $m > /dev/null 2>&1 || echo "setup: $m does not build"; done; }
 exit 0
